@@ -156,8 +156,11 @@ Definition sig_ok (k : kind) (f : field) : bool :=
 
 Local Open Scope string_scope.
 
-(* the complaints about one model field list against one layout table: empty = the tables agree *)
-Fixpoint field_errors (fs : list field) (sfs : list sfield) (off : nat) : list string :=
+(* the complaints about one model field list against one layout table: empty = the tables agree.
+   [ok s f] is the demand on the content of a field ([sig_ok] for C01, [total_ok] for C11), [what] its name in a complaint;
+   names, widths and contiguous offsets are always compared. *)
+Fixpoint field_errors (ok : sfield -> field -> bool) (what : string) (fs : list field) (sfs : list sfield) (off : nat)
+  : list string :=
   match fs, sfs with
   | [], [] => []
   | f :: fr, s :: sr =>
@@ -165,22 +168,57 @@ Fixpoint field_errors (fs : list field) (sfs : list sfield) (off : nat) : list s
       (if Nat.eqb (f_width f) (s_width s) then [] else [s_name s ++ ": width"]) ++
       (if Nat.eqb (s_off s) off then [] else [s_name s ++ ": offset"]) ++
       (if Nat.ltb 0 (f_width f) then [] else [s_name s ++ ": empty"]) ++
-      (if sig_ok (s_kind s) f then [] else [s_name s ++ ": signature (type, sign or converter)"]) ++
-      field_errors fr sr (off + f_width f)
+      (if ok s f then [] else [s_name s ++ ": " ++ what]) ++
+      field_errors ok what fr sr (off + f_width f)
   | f :: _, [] => [f_name f ++ ": not in the layout"]
   | [], s :: _ => [s_name s ++ ": missing"]
   end.
 
-Definition layout_errors (c : cls) (v : variant) : list string :=
+Definition table_errors (ok : sfield -> field -> bool) (what : string) (c : cls) (v : variant) : list string :=
   map (fun e => variant_class v ++ "." ++ e)
       ((if String.eqb (class_name c) (variant_class v) then [] else ["class name is " ++ class_name c]) ++
        (if Nat.eqb (total_width (spec_layout v)) (nominal v) then [] else ["nominal length"]) ++
-       field_errors (fields_of c) (spec_layout v) 0).
+       field_errors ok what (fields_of c) (spec_layout v) 0).
+
+(* C01: the signature the layout kind demands *)
+Definition ok_c01 (s : sfield) (f : field) : bool := sig_ok (s_kind s) f.
+Definition layout_errors (c : cls) (v : variant) : list string :=
+  table_errors ok_c01 "signature (type, sign or converter)" c v.
+
+(* C11 demands less of a field than C01: decoding a slice of at most the field's width must not raise, and an attribute
+   that is None must stay None in __init__.  Sign flags and scale constants do not matter here. *)
+Definition is_div_any (r : rconv) : bool :=
+  match r with RShape (ShDiv c) => negb (dec_num c =? 0)%Z | _ => false end.
+Definition is_round_div_any (r : rconv) : bool :=
+  match r with RShape (ShRoundFloatDiv c nd) => (0 <? dec_num c)%Z && (0 <=? nd)%Z | _ => false end.
+Definition is_to_turn_any (r : rconv) : bool :=
+  match r with
+  | RShape (ShToTurn k127 k128 c) => (0 <? dec_num c)%Z && is_ok (TurnRate_ctor k127) && is_ok (TurnRate_ctor (- k127)%Z)
+  | _ => false
+  end.
+Definition enum_total (e : enum_id) : bool := forallb (fun code => is_ok (enum_ctor e code)) (zrange 0%Z 255%Z).
+
+Definition total_ok (f : field) : bool :=
+  let to := resolve (f_to f) in
+  let at_ := resolve (f_attrs_conv f) in
+  match f_dtype f with
+  | DStr | DBytes | DBool => is_none to && is_none at_
+  | DInt => (is_none to && is_none at_) ||
+            (negb (f_signed f) && Nat.leb (f_width f) 8 &&
+             match enum_conv to at_ with Some e => enum_total e | None => false end)
+  | DFloat => is_none at_ && (is_none to || is_div_any to || is_round_div_any to || is_to_turn_any to)
+  end.
+
+Definition ok_c11 (_ : sfield) (f : field) : bool := total_ok f.
+Definition prefix_errors (c : cls) (v : variant) : list string :=
+  table_errors ok_c11 "decoding may raise (type or converter)" c v.
 
 Local Close Scope string_scope.
 
 Definition layout_ok (c : cls) (v : variant) : bool :=
   match layout_errors c v with [] => true | _ => false end.
+Definition prefix_ok (c : cls) (v : variant) : bool :=
+  match prefix_errors c v with [] => true | _ => false end.
 
 (* ------------------------------------------------------------------------------------------------ *)
 (* dispatch_matches_spec: the checker                                                                 *)
